@@ -215,6 +215,7 @@ func runCheck(e *Engine, args []string, tier string, timeout int, verif string) 
 	}
 	reported := map[string]int{}
 	skipped := 0
+	var knownObs []string
 	for _, ob := range failed {
 		if ob.Status == "not-attempted" {
 			skipped++
@@ -231,6 +232,8 @@ func runCheck(e *Engine, args []string, tier string, timeout int, verif string) 
 			}
 		}
 		if known {
+			nOb-- // obligations of recorded findings are reported separately, not claimed
+			knownObs = append(knownObs, ob.Name)
 			continue
 		}
 		violations++
@@ -314,6 +317,7 @@ func runCheck(e *Engine, args []string, tier string, timeout int, verif string) 
 		"solver_seconds":     round2(solverSecs),
 		"samples":            samples,
 		"known_findings":     len(printedKnown),
+		"known_finding_obligations": knownObs,
 		"undischarged":       obNames(failed),
 		"contract_drift":     drift,
 		"per_obligation_timeout_ms": opts.TimeoutMs,
